@@ -134,6 +134,13 @@ func ExploreScenario(sc *Scenario, opt Options) (*Stats, []Found, error) {
 			st.Truncated = fmt.Sprintf("budget reached with %d prefixes pending", len(stack))
 			break
 		}
+		if st.StepLimits >= 8 {
+			// every further schedule of this driver is likely to run into the horizon as well (each costs the full
+			// horizon): the finding is recorded, stop here
+			st.Complete = false
+			st.Truncated = fmt.Sprintf("%d executions hit the step horizon; %d prefixes not explored", st.StepLimits, len(stack))
+			break
+		}
 		it := stack[len(stack)-1]
 		stack = stack[:len(stack)-1]
 		if it.chunk > 0 && opt.Claim != nil {
@@ -202,7 +209,16 @@ func ExploreScenario(sc *Scenario, opt Options) (*Stats, []Found, error) {
 				found = append(found, Found{Issue: is, Scenario: sc.Name, Choices: ch, MapDesc: sc.MapDesc, Trace: EventNames(r), Cost: costOf(r.Decisions, len(r.Decisions))})
 			}
 		}
-		// expand alternatives behind the prefix
+		// expand alternatives behind the prefix - not behind an execution that ran into the step horizon: it has tens
+		// of thousands of decision points, each alternative would cost the full horizon again (and the prefixes alone
+		// would take gigabytes); the execution itself has been judged
+		if r.StepLimit {
+			st.Complete = false
+			if st.Truncated == "" {
+				st.Truncated = "alternatives behind an execution that hit the step horizon are not explored"
+			}
+			continue
+		}
 		ns := make([]int, len(r.Decisions))
 		for i, d := range r.Decisions {
 			ns[i] = d.N
